@@ -204,6 +204,10 @@ class RefDevice:
             if tail:
                 conn.send(tail, lat=lat)
             self._fire("silent_hs" if d.get("drop") else "unknown_token_ignored_silently")
+            if d.get("close"):
+                # no reply at all: the connection is reset / closed while the client waits for one
+                self._fire("close_instead_of_hs_reply" + ("_rst" if d.get("rst") else ""))
+                conn.close(rst=bool(d.get("rst")), lat=lat)
             return
         if d.get("flood") is not None:
             k = self.key if self.key is not None else bytes(32)
